@@ -39,6 +39,7 @@ func VerifH_dns4() {
 	r, stop := Handler4(req, resp)
 
 	vnd.Assert(r != nil || stop, "C13 a built-in handler returns a nil response only together with stop")
+	vnd.Assert(r != nil || stop, "C01 no handler passes a nil response on to its successors (they would dereference it)")
 	vnd.Assert(r == resp && !stop, "C17 dns4 passes the response on")
 	entitled := kind != 2 || vh.Listed(codes, uint8(dhcpv4.OptionDomainNameServer))
 	got, present := resp.Options[uint8(dhcpv4.OptionDomainNameServer)]
@@ -72,6 +73,7 @@ func VerifH_dns6() {
 	r, stop := Handler6(req, resp)
 
 	vnd.Assert(r != nil || stop, "C13 a built-in handler returns a nil response only together with stop")
+	vnd.Assert(r != nil || stop, "C01 no handler passes a nil response on to its successors (they would dereference it)")
 	vnd.Assert(r == dhcpv6.DHCPv6(resp) && !stop, "C17 dns6 passes the response on")
 	entitled := kind == 1 && vh.Listed6(codes, uint16(dhcpv6.OptionDNSRecursiveNameServer))
 	opts := resp.Options.Get(dhcpv6.OptionDNSRecursiveNameServer)
